@@ -322,6 +322,7 @@ func (cm concurrencyModel) selectI(g *VCGen, x *ssa.Select) {
 // ---------------------------------------------------------------- monitors
 
 type MonitorDecl struct {
+	Strict           bool // every access to a protected field is an obligation "the lock is held" (reads: shared or exclusive)
 	Pkg, Type, Field string
 	Protects         []Clause
 	Invariant        []Clause
@@ -364,6 +365,23 @@ func (concurrencyModel) lockOp(g *VCGen, op string, c *ssa.CallCommon, pos token
 	}
 	g.chanHeaps()
 	env := &SpecEnv{g: g, vars: map[string]SpecVal{"self": owner}, cur: g.cur, old: g.cur, pkg: g.eng.typesPkg(m.Pkg)}
+	if m.Strict {
+		hr, hw := g.heldFlags(m)
+		defer func() {
+			switch op {
+			case "Lock":
+				g.setHeap(g.cur, hr, "true")
+				g.setHeap(g.cur, hw, "true")
+			case "RLock":
+				g.setHeap(g.cur, hr, "true")
+			case "Unlock":
+				g.setHeap(g.cur, hr, "false")
+				g.setHeap(g.cur, hw, "false")
+			case "RUnlock":
+				g.setHeap(g.cur, hr, "false")
+			}
+		}()
+	}
 	switch {
 	case strings.HasSuffix(op, "Lock") && !strings.HasSuffix(op, "Unlock"):
 		// acquire: other threads may have changed everything the monitor protects
@@ -383,10 +401,80 @@ func (concurrencyModel) lockOp(g *VCGen, op string, c *ssa.CallCommon, pos token
 		for _, inv := range m.Invariant {
 			g.assumeHere(g.trClause(env, inv))
 		}
+		g.lockCount++
+		if g.lockCount == 1 {
+			g.lockState = g.cur.clone()
+		} else {
+			g.lockState = nil // atlock() is only defined for functions with a single lock acquisition
+		}
 		g.usedTrusted["sync.Mutex provides mutual exclusion; monitor "+m.Type+"."+m.Field+": protected state is only accessed under the lock (declared, see DESIGN 2.4 R2)"] = true
 	default:
 		for k, inv := range m.Invariant {
 			g.oblige(fmt.Sprintf("monitor(%s).inv.%d@unlock:%s", m.Field, k, shortPos(g, pos)), "monitor", g.trGoal(env, inv), "monitor invariant re-established before "+op+": "+inv.Text, pos)
+		}
+	}
+}
+
+// heldFlags: ghost flags "this activation holds the monitor's lock (shared / exclusive)"
+func (g *VCGen) heldFlags(m *MonitorDecl) (string, string) {
+	return g.so.heap("IT!heldR!"+m.Type+"."+m.Field, "Bool"), g.so.heap("IT!heldW!"+m.Type+"."+m.Field, "Bool")
+}
+
+// initHeldFlags: no lock is held at entry (methods are called without the lock; a function that is only ever called with
+// the lock held says so with prop "locked:<field>")
+func (g *VCGen) initHeldFlags() {
+	for _, m := range g.eng.contracts.Monitors {
+		if !m.Strict {
+			continue
+		}
+		hr, hw := g.heldFlags(m)
+		v := "false"
+		if g.fc != nil && hasProp(g.fc.Props, "locked:"+m.Field) {
+			v = "true"
+		}
+		g.setHeap(g.cur, hr, v)
+		g.setHeap(g.cur, hw, v)
+	}
+}
+
+// checkProtected: an access through addr to a field protected by a strict monitor needs the lock
+func (g *VCGen) checkProtected(addr ssa.Value, write bool, pos token.Pos) {
+	fa, ok := addr.(*ssa.FieldAddr)
+	if !ok {
+		return
+	}
+	pt, ok := fa.X.Type().Underlying().(*types.Pointer)
+	if !ok {
+		return
+	}
+	n, ok := pt.Elem().(*types.Named)
+	if !ok || n.Obj().Pkg() == nil {
+		return
+	}
+	st, ok := n.Underlying().(*types.Struct)
+	if !ok {
+		return
+	}
+	fname := st.Field(fa.Field).Name()
+	for _, m := range g.eng.contracts.Monitors {
+		if !m.Strict || m.Type != n.Obj().Name() || m.Pkg != n.Obj().Pkg().Path() {
+			continue
+		}
+		for _, p := range m.Protects {
+			sel, ok := p.E.(ESel)
+			if !ok || sel.Field != fname {
+				continue
+			}
+			if id, ok := sel.X.(EIdent); !ok || id.Name != "self" {
+				continue
+			}
+			hr, hw := g.heldFlags(m)
+			flag, what := hr, "read"
+			if write {
+				flag, what = hw, "written"
+			}
+			g.oblige(fmt.Sprintf("monitor(%s).held@%s:%s", m.Field, shortPos(g, pos), fname), "monitor", g.heapTerm(g.cur, flag),
+				fmt.Sprintf("field %s is %s only while %s is held", fname, what, m.Field), pos)
 		}
 	}
 }
